@@ -7,7 +7,8 @@
    i.e. the query of every case reads back as exactly the values the specification Spec/Expand.v
    expects, or the run fails with a Sigma error when the specification demands a failure. It is false
    without the premise (C17_linking_refuted). What is proved: the expansion step itself
-   (C17_cross_product, C17_replace_error, C17_handled_gone), the rendering guards and the read-back
+   (C17_cross_product, C17_replace_error, C17_handled_gone, and C17_step_spec: model step = specification
+   step for value-list and wildcard items), the rendering guards and the read-back
    of every emitted literal (C17_no_raw_string, C17_no_raw_regex), and their composition over a whole
    run (C17_run_ok_resolved, C17_unresolved_fails). Not proved: agreement of the one-pass placeholder
    scanner ph_go with the look-ahead reader xread, and of read_query with the OR/AND joiner. Both are
@@ -46,6 +47,22 @@ Theorem C17_handled_gone :
                      filter (fun n => negb (handled t n)) (placeholders (vparts x))) rs.
 Proof. exact handled_gone. Qed.
 Print Assumptions C17_handled_gone.
+
+(* one value-list / wildcard transformation of the model is the specification's step Spec.Expand.s_step
+   (stated on items, independently of the recursion of the code: all combinations of the tables of the
+   handled placeholders only, leftmost placeholder outermost, tables in configuration order, unhandled
+   placeholders kept): same values in the same order, and it fails exactly when the specification demands
+   a failure (missing / empty / ill-typed table, or an expanded regular expression that does not compile) *)
+Theorem C17_step_spec :
+  forall vs t x, item_ok t = true -> base_kind t -> has_parts x ->
+    match x with VR v => compile_ok v = true | _ => True end ->
+    match apply_value vs t x with
+    | Ok rs => s_step (tabs_of vs) (to_sitem t) (sv x) = Some (map sv rs)
+    | SigmaErr _ => s_step (tabs_of vs) (to_sitem t) (sv x) = None
+    | Crash _ => False
+    end.
+Proof. exact base_step_spec. Qed.
+Print Assumptions C17_step_spec.
 
 (* strings and keywords: a literal is only emitted for a placeholder-free value, and under a well-formed
    escaping configuration it reads back as exactly the value's characters and wildcards; so every
